@@ -55,6 +55,14 @@ def check_response(req, resp):
   int_con = any(k["var_type"] == "int" for k in cons or [])
   if len(pts) > n or (len(pts) < n and not (discrete or int_con)):
     return "count", dict(returned=len(pts), requested=n)
+  if len(pts) < n and discrete and not cons and not (req.get("task_options") or []) and resp.get("distinct_seen") is not None:
+    # "fewer only when the discrete domain cannot supply them": an unconstrained lattice with at least n configurations that are neither
+    # observed nor pending can
+    total = 1
+    for c in comps:
+      total *= (int(c["elements"][1]) - int(c["elements"][0]) + 1) if c["var_type"] == "int" else len(c["elements"])
+    if total - resp["distinct_seen"] >= n:
+      return "short-although-unobserved-configurations-remain", dict(returned=len(pts), requested=n, configurations=total, observed_or_pending=resp["distinct_seen"])
   opts = req.get("task_options") or []
   costs = resp.get("task_costs")
   if opts and req["endpoint"] in ("gp", "spe", "random"):
@@ -276,4 +284,12 @@ def run_endpoint(req):
   finally:
     numpy.random.choice = real_choice
   pts = numpy.asarray(resp["points_to_sample"], dtype=float)
-  return dict(points=pts.tolist(), task_costs=resp.get("task_costs"), task_options=tasks, weighted_draws=weighted)
+  seen_cfg = set()
+  try:   # distinct configurations already observed or pending (for the count rule on fully discrete domains)
+    for cont in (params["points_sampled"], params["points_being_sampled"]):
+      for row in numpy.asarray(cont.points, dtype=float).reshape(-1, len(req["comps"]) + (1 if len(tasks) else 0)):
+        seen_cfg.add(tuple(float(v) for v in row[: len(req["comps"])]))
+  except Exception:
+    seen_cfg = None
+  return dict(points=pts.tolist(), task_costs=resp.get("task_costs"), task_options=tasks, weighted_draws=weighted,
+              distinct_seen=None if seen_cfg is None else len(seen_cfg))
